@@ -74,6 +74,9 @@ def to_str(ex, v):
         return repr(v)
     if isinstance(v, ExcVal):
         return str(v.msg)
+    from .values import Arr, Obj
+    if isinstance(v, (Arr, Obj)):
+        return '<%s>' % getattr(v, 'name', type(v).__name__)      # text of messages / reprs only
     raise Unsupported('str() of %r' % type(v).__name__)
 
 
